@@ -33,7 +33,11 @@ enum Change {
     Blank(usize),
     /// optional line break at stream position i removed (tokens stay on one line)
     Join(usize),
+    /// the `{` (Word token i) that opens the body of a fn / while / for / if / match header moved to a later line:
+    /// k = 0 next line, 1 after a blank line, 2 after a comment line
+    BraceBreak(usize, usize),
 }
+const BRACE_BREAKS: [&str; 3] = ["\n", "\n\n", "\n// c\n"];
 
 fn render(t: &Toks, ch: &[Change]) -> String {
     let mut s = String::new();
@@ -43,6 +47,12 @@ fn render(t: &Toks, ch: &[Change]) -> String {
             TK::Word => {
                 let mut glue = tok.glue;
                 for c in ch {
+                    if let Change::BraceBreak(pos, k) = c {
+                        if *pos == i {
+                            s.push_str(BRACE_BREAKS[*k]);
+                            at_line_start = true;
+                        }
+                    }
                     if let Change::Block(pos, k) = c {
                         if *pos == i {
                             if !at_line_start {
@@ -64,7 +74,7 @@ fn render(t: &Toks, ch: &[Change]) -> String {
                 if at_line_start {
                     continue;
                 }
-                let here = ch.iter().find(|c| !matches!(c, Change::Block(..)) && pos_of(c) == i);
+                let here = ch.iter().find(|c| !matches!(c, Change::Block(..) | Change::BraceBreak(..)) && pos_of(c) == i);
                 match here {
                     Some(Change::Line(_, k)) => {
                         s.push(' ');
@@ -128,14 +138,27 @@ fn in_match_arms(t: &Toks, i: usize) -> bool {
 fn changes(t: &Toks) -> Vec<Change> {
     let mut v = vec![];
     let n = t.0.len();
+    let mut first_word: Option<&str> = None;
+    let mut prev_word: Option<&str> = None;
     for (i, tok) in t.0.iter().enumerate() {
         match tok.kind {
             TK::Word => {
                 for k in 0..BLOCK_COMMENTS.len() {
                     v.push(Change::Block(i, k));
                 }
+                // the body brace of a statement-level header may stand on a later line
+                if tok.text == "{" && !tok.glue && matches!(first_word, Some("fn" | "while" | "for" | "if" | "match")) && !matches!(prev_word, Some("=" | "->" | "else")) {
+                    for k in 0..BRACE_BREAKS.len() {
+                        v.push(Change::BraceBreak(i, k));
+                    }
+                }
+                if first_word.is_none() {
+                    first_word = Some(tok.text.as_str());
+                }
+                prev_word = Some(tok.text.as_str());
             }
             TK::Sep => {
+                first_word = None;
                 for k in 0..LINE_COMMENTS.len() {
                     v.push(Change::Line(i, k));
                 }
@@ -148,6 +171,7 @@ fn changes(t: &Toks) -> Vec<Change> {
                 v.push(Change::Blank(i));
             }
             TK::Brk => {
+                first_word = None;
                 for k in 0..LINE_COMMENTS.len() {
                     v.push(Change::Line(i, k));
                 }
@@ -385,6 +409,6 @@ impl Prop for C29 {
 
 fn pos_of(c: &Change) -> usize {
     match c {
-        Change::Block(p, _) | Change::Line(p, _) | Change::Semi(p) | Change::Blank(p) | Change::Join(p) => *p,
+        Change::Block(p, _) | Change::Line(p, _) | Change::Semi(p) | Change::Blank(p) | Change::Join(p) | Change::BraceBreak(p, _) => *p,
     }
 }
